@@ -29,6 +29,7 @@ type Engine struct {
 	loadTime       time.Duration
 	verifiedKeys   map[string]bool
 	repo           string
+	globalNonNil   map[*ssa.Global]int // 0 unknown, 1 yes, 2 no
 }
 
 const modPath = "mosn.io/mosn"
@@ -328,6 +329,91 @@ func (e *Engine) assignsMemNames(vc *VC, con *Contract, a SExpr) ([]string, bool
 		}
 	}
 	return nil, false
+}
+
+// initNonNil reports whether package variable g (of interface or pointer type) is assigned exactly
+// once, in its package's initialiser, a freshly constructed non-nil value (errors.New, fmt.Errorf,
+// &T{...}, a boxed value) and nowhere else in that package. Such a variable is non-nil whenever any
+// function under contract runs (package initialisation happens before).
+func (e *Engine) initNonNil(g *ssa.Global) bool {
+	if e.globalNonNil == nil {
+		e.globalNonNil = map[*ssa.Global]int{}
+	}
+	if v := e.globalNonNil[g]; v != 0 {
+		return v == 1
+	}
+	res := 2
+	defer func() { e.globalNonNil[g] = res }()
+	if g.Pkg == nil || !token.IsExported(g.Name()) && false {
+		return false
+	}
+	if token.IsExported(g.Name()) {
+		// an exported variable can be reassigned by any importer: only accept error-typed ones, which by
+		// convention are never reassigned
+		if !types.Identical(g.Type().Underlying().(*types.Pointer).Elem(), types.Universe.Lookup("error").Type()) {
+			return false
+		}
+	}
+	nonNilInit := false
+	var visit func(fn *ssa.Function) bool
+	visit = func(fn *ssa.Function) bool {
+		for _, b := range fn.Blocks {
+			for _, ins := range b.Instrs {
+				st, ok := ins.(*ssa.Store)
+				if !ok || st.Addr != g {
+					continue
+				}
+				if fn.Name() != "init" || fn.Pkg != g.Pkg {
+					return false
+				}
+				switch v := st.Val.(type) {
+				case *ssa.Call:
+					if f := v.Call.StaticCallee(); f != nil && (f.String() == "errors.New" || f.String() == "fmt.Errorf") {
+						nonNilInit = true
+						continue
+					}
+					return false
+				case *ssa.MakeInterface:
+					nonNilInit = true
+				case *ssa.Alloc:
+					nonNilInit = true
+				default:
+					return false
+				}
+			}
+		}
+		for _, af := range fn.AnonFuncs {
+			if !visit(af) {
+				return false
+			}
+		}
+		return true
+	}
+	for _, m := range g.Pkg.Members {
+		switch f := m.(type) {
+		case *ssa.Function:
+			if !visit(f) {
+				return false
+			}
+		case *ssa.Type:
+			mset := e.prog.MethodSets.MethodSet(f.Type())
+			for i := 0; i < mset.Len(); i++ {
+				if fn := e.prog.MethodValue(mset.At(i)); fn != nil && fn.Pkg == g.Pkg && !visit(fn) {
+					return false
+				}
+			}
+			pset := e.prog.MethodSets.MethodSet(types.NewPointer(f.Type()))
+			for i := 0; i < pset.Len(); i++ {
+				if fn := e.prog.MethodValue(pset.At(i)); fn != nil && fn.Pkg == g.Pkg && !visit(fn) {
+					return false
+				}
+			}
+		}
+	}
+	if nonNilInit {
+		res = 1
+	}
+	return nonNilInit
 }
 
 // ---------- verification of one function ----------
